@@ -14,6 +14,7 @@
 #include <sys/wait.h>
 #include <unistd.h>
 #include <set>
+#include <algorithm>
 #include <sstream>
 
 namespace vs {
@@ -127,7 +128,12 @@ void pick(bool selfContinues)
         order.push_back({ me, 0, false });
         for (Thread *t : others) order.push_back({ t, 1, false });
     } else {
-        for (Thread *t : others) order.push_back({ t, 0, false });
+        // FAIRNESS: after a sleep / poll iteration the turn goes to a thread that wants to do real work; handing it to ANOTHER sleeper
+        // while such a thread is runnable starves that thread (two polling loops could ping-pong for ever at no cost) and counts as a deviation
+        bool anyWorker = false;
+        for (Thread *t : others) if (!t->voluntary) anyWorker = true;
+        std::stable_sort(others.begin(), others.end(), [](Thread *a, Thread *b) { return !a->voluntary && b->voluntary; });
+        for (Thread *t : others) order.push_back({ t, (t->voluntary && anyWorker) ? 1 : 0, false });
         if (selfContinues && meEnabled) order.push_back({ me, others.empty() ? 0 : 1, false });
     }
     // timed waits: a blocked thread whose wait has a timeout may be resumed by it - free when nothing else can run, else a
